@@ -97,7 +97,8 @@ void bn_rec_win(uint8_t *win, size_t *len, const bn_t k, size_t w) {
 
 	l = bn_bits(k);
 
-	if (*len < RLC_CEIL(l, w)) {
+	/* Zero is recoded as a single zero window. */
+	if (*len < RLC_MAX(RLC_CEIL(l, w), 1)) {
 		*len = 0;
 		RLC_THROW(ERR_NO_BUFFER);
 		return;
@@ -105,11 +106,16 @@ void bn_rec_win(uint8_t *win, size_t *len, const bn_t k, size_t w) {
 
 	memset(win, 0, *len);
 
+	if (l == 0) {
+		*len = 1;
+		return;
+	}
+
 	j = 0;
-	for (i = 0; i < l - w; i += w) {
+	for (i = 0; i < l - (int)w; i += w) {
 		win[j++] = get_bits(k, i, i + w - 1);
 	}
-	win[j++] = get_bits(k, i, bn_bits(k) - 1);
+	win[j++] = get_bits(k, i, l - 1);
 	*len = j;
 }
 
